@@ -360,6 +360,7 @@ func init() {
 			MaxSize  int64
 			GC       bool
 			Combined int64
+			UserName string
 			Ops      []struct {
 				K   string
 				Sev int
@@ -372,6 +373,11 @@ func init() {
 		return withTimeout(120*time.Second, func() (interface{}, error) {
 			return inLogScope(func(dir string) (interface{}, error) {
 				atomic.StoreInt64(&log.LogFileMaxSize, a.MaxSize)
+				if a.UserName != "" {
+					// the file names carry the user name of the process: try others
+					old := log.VerifSetUserName(a.UserName)
+					defer log.VerifSetUserName(old)
+				}
 				ctx := context.Background()
 				if a.GC {
 					atomic.StoreInt64(&log.LogFilesCombinedMaxSize, a.Combined)
